@@ -9,3 +9,4 @@ import KojenVerif.Props.C07
 #print axioms KojenVerif.C07.C07_file_keys_nodup
 #print axioms KojenVerif.C07.C07_key_stable_across_models
 #print axioms KojenVerif.C07.C07_shipped_sm_schemes_classified
+#print axioms KojenVerif.C07.C07_shipped_other_templates_static
